@@ -319,8 +319,19 @@ def run(ctx):
         ctx.notes.append("relay: %d waits ended on the harness deadline (no verdict taken from them)" % timeouts)
         if timeouts * 4 > sum(1 for e in relay if e["ev"] == "conn"):
             raise vlib.Inconclusive("relay: %d harness deadlines hit" % timeouts)
-    simple_part(ctx, "http", "FidelityHttp", "FidelityHttp.cfg" if q else "FidelityHttp_thorough.cfg", ["FidelityHttp_defect.cfg"],
-                "UriPreserved", "http", "req", http_classify, ("seen", "resp"))
+    for d, inv in (("FidelityHttp_defect_DrainBodyOnSend.cfg", "BodyPreserved"),):
+        rr = vlib.run_tlc(ctx, "wire", "FidelityHttp", d, expect_ok=False, timeout=300)
+        if rr["ok"] or rr["violated"] != inv:
+            raise vlib.Inconclusive("FidelityHttp model does not reject %s" % d)
+    hev = simple_part(ctx, "http", "FidelityHttp", "FidelityHttp.cfg" if q else "FidelityHttp_thorough.cfg", ["FidelityHttp_defect.cfg"],
+                      "UriPreserved", "http", "req", http_classify, ("seen", "resp"))
+    want = {"h1h1": 1, "h2h2": 2}
+    pair = None
+    for e in hev:
+        if e["ev"] == "req":
+            pair = e["pair"]
+        elif e["ev"] == "seen" and e["arrived"] and e["upver"] != want.get(pair, e["upver"]):
+            raise vlib.Inconclusive("http: pairing %s not realised (upstream saw HTTP/%s)" % (pair, e["upver"]))
     ctx.cov["rule"] = ("codec: every behaviour recv;(<=1 header/body call | scribble | reuse)*;forward;[..;forward] of length <= MaxOps that TLC "
                        "enumerates from Codec.tla over codec x direction x length classes at the byte-width boundaries (one dimension off its "
                        "unremarkable value in quick, two in thorough) x mutation arguments incl. header blocks of exactly 65535/65536/70009 bytes; "
@@ -329,7 +340,7 @@ def run(ctx):
                        "MOSN for each of the five codecs; relay: every schedule of <= MaxOps peer operations "
                        "(send of a chunk size / wait for quiescence / close) ending in a close, run through the TCP proxy listener of an in-process "
                        "MOSN; http: every request target of <= MaxSegs segments x query kinds with GET plus methods x bodies x header kinds x "
-                       "responses on a plain target, for the four HTTP/1, HTTP/2 listener/cluster pairings of an in-process MOSN")
+                       "responses on a plain target, incl. a retried first attempt, for the HTTP/1->HTTP/1 and HTTP/2->HTTP/2 listener/cluster pairings of an in-process MOSN")
     ctx.cov["exhaustive"] = True
     ctx.assumptions += [
         "byte values are seeded random (VERIF_SEED); lengths, counts and positions are enumerated",
@@ -338,5 +349,5 @@ def run(ctx):
         "header keys are unique within a frame; 4- and 8-byte length fields are not driven to their limits (lengths <= 1 MiB)",
         "xe2e: request frames carry a 'service' header / rpc command code / 30 s timeout so that they are routable; one-way requests are not sent end to end",
         "relay: a peer closes only after it has received everything the other peer wrote (no reset-induced loss); full close, no half-close",
-        "http: header names compare case-insensitively, a repeated field may arrive joined by ', '; Host is not compared; upstream is Go net/http (h1 and h2c)",
+        "http: header names compare case-insensitively, a repeated field may arrive joined by ', '; Host is not compared; upstream is Go net/http (h1 and h2c); HTTP/1<->HTTP/2 crossings need the transcoder stream filter (a configured rewrite) and are not driven",
     ]
